@@ -947,7 +947,20 @@ impl Element {
                         // this SHORT-NAME element might be newly created, in which case there is no previous path
                         if self.character_data().is_some() {
                             if let Some(parent) = self.parent()? {
-                                prev_path = Some(parent.path()?);
+                                let parent_path = parent.path()?;
+                                // the new name must not collide with a different element, just like in set_item_name()
+                                if let (Some(cur_name), CharacterData::String(new_name)) = (parent.item_name(), &chardata) {
+                                    if let Some(prefix) = parent_path.strip_suffix(&cur_name) {
+                                        let new_path = format!("{prefix}{new_name}");
+                                        if new_path != parent_path && model.get_element_by_path(&new_path).is_some() {
+                                            return Err(AutosarDataError::DuplicateItemName {
+                                                element: parent.element_name(),
+                                                item_name: new_name.clone(),
+                                            });
+                                        }
+                                    }
+                                }
+                                prev_path = Some(parent_path);
                             }
                         }
                     };
